@@ -91,7 +91,7 @@ def repo_cases(maxfiles=12):
     for i in range(5): sc.file("in%d.cab" % i, open(os.path.join(REPO_CABX, "split-%d.cab" % (i + 1)), "rb").read())
     cab_ops(sc, 5, maxfiles); out.append(Case("repo:split", "cab", sc))
     for f in sorted(glob.glob(os.path.join(REPO_CHM, "*.chm"))):
-        sc = scenario.Scn().file("in0.chm", open(f, "rb").read()); fmt_ops("chm", sc, maxfiles); out.append(Case("repo:" + os.path.basename(f), "chm", sc))
+        sc = scenario.Scn().file("in0.chm", open(f, "rb").read()); fmt_ops("chm", sc, max(maxfiles, 80)); out.append(Case("repo:" + os.path.basename(f), "chm", sc))
     for f in sorted(glob.glob(os.path.join(REPO_KWAJ, "*.kwj"))):
         sc = scenario.Scn().file("in0.kwj", open(f, "rb").read()); fmt_ops("kwaj", sc); out.append(Case("repo:" + os.path.basename(f), "kwaj", sc))
     return out
